@@ -262,9 +262,9 @@ def trace_cfg(c, p):
 
 
 def ref_cfg(c, p, name, nidx, iidx, spec, props, hist, last=True, fix=False):
-    return vlib.write_cfg(c, name, "CONSTANTS %s FixSingle = " + ("TRUE" if fix else "FALSE") + " TrackLast = %s TrackHist = %s NIdx = {%s} IIdx = {%s}\n"
+    return vlib.write_cfg(c, name, "CONSTANTS %s FixSingle = %s TrackLast = %s TrackHist = %s NIdx = {%s} IIdx = {%s}\n"
                                    "SPECIFICATION %s\n%sINVARIANTS MTypeOK\n%sCHECK_DEADLOCK FALSE\n"
-                          % (sizes_consts(p), "TRUE" if last else "FALSE", "TRUE" if hist else "FALSE",
+                          % (sizes_consts(p), "TRUE" if fix else "FALSE", "TRUE" if last else "FALSE", "TRUE" if hist else "FALSE",
                              ",".join(str(i) for i in nidx), ",".join(str(i) for i in iidx), spec,
                              "VIEW RView\n" if hist else "", ("PROPERTIES %s\n" % props) if props else ""))
 
@@ -345,7 +345,12 @@ def run(c):
                       "of its priority level is handed out twice",
                       "liveness: weak fairness on 'dequeue' and on the arrival of the awaited confirmation; a request may wait "
                       "while a higher priority level has something to send"]
-    exe = vlib.build(c, "notifq", ["notifq/notifq_harness.cpp"])
+    att_exe = None
+    if c.prop == "C11" and not c.replay:
+        exe, att_exe = vlib.build_many(c, [dict(name="notifq", sources=["notifq/notifq_harness.cpp"]),
+                                          dict(name="notifq_att", sources=["notifq/notifq_att_harness.cpp"])])
+    else:
+        exe = vlib.build(c, "notifq", ["notifq/notifq_harness.cpp"])
     if c.replay:
         return replay(c, exe)
     # VERIF_NOTIFQ_SKIP_MODEL=1 (development only, e.g. for source mutants): skip the design level runs, which do
@@ -357,7 +362,7 @@ def run(c):
         counter = model_level(c)
     queue_level(c, exe, counter)
     if c.prop == "C11":
-        att_level(c)
+        att_level(c, att_exe)
 
 
 def queue_level(c, exe, counter):
@@ -535,8 +540,7 @@ def att_report(c, nc, execs, mismatch_lines, why):
                   {"level": "att", "nc": nc, "ops": att_ops_of_events(evs[:ln - first + 1])})
 
 
-def att_level(c):
-    exe = vlib.build(c, "notifq_att", ["notifq/notifq_att_harness.cpp"])
+def att_level(c, exe):
     quick = c.quick
     jobs = []
     # all call sequences of depth D: the single characteristic server from every CCCD value; the three characteristic
